@@ -17,6 +17,9 @@ Line protocol of engine `sampling` (numbers decimal unless noted; `h…` = hexad
   `rt <target>/<v>/<interval_ns>/<next0_ns> <op> …`   `CongressSample` under its real clock (`sampleRateAt`, stride 1)
        op `o<pairs>@<now_ns>:<word32h>` or `o<pairs>@<now_ns>~<key>,<key>…:<word32h>` (iteration order, used if the call rolls over)
        → `e<rate32h>` | `d<rate32h>` | `P`, prefixed by `R<rows>|` when the call rolled the interval over
+  `dr <word64h>,<word64h>… <call> <call> …`   `DefaultRng<R>` over a scripted `R` (`-` = empty script)
+       call `a` next_u32 → 8 hex | `b` next_u64 → 16 hex | `f<len>` fill_bytes → hex bytes (`-` if none)
+          | `e` random::<f32>() → binary32 bits | `d` random::<f64>() → binary64 bits
 A value outside the modelled float range is printed as `range`.
 -/
 namespace Driver.Sampling
@@ -144,6 +147,20 @@ def rtRun (validate : Bool) (c : Clocked F32) : List String → Option (List Str
     let rest ← rtRun validate c' ts
     some (r :: rest)
 
+def parseCall (t : String) : Option RngCall :=
+  if t == "a" then some .u32 else if t == "b" then some .u64
+  else if t == "e" then some .f32 else if t == "d" then some .f64
+  else if t.startsWith "f" then (t.drop 1).toNat?.map .fill else none
+
+def callOut (c : RngCall) (out : List Nat) : String :=
+  match c, out with
+  | .u32, [x] => hexOf 8 x
+  | .u64, [x] => hexOf 16 x
+  | .fill _, bs => if bs.isEmpty then "-" else String.join (bs.map (hexOf 2))
+  | .f32, [m] => f32Str ⟨m, -24⟩
+  | .f64, [m] => f64Str ⟨m, -53⟩
+  | _, _ => "bad"
+
 def handle (line : String) : String :=
   match (line.trimAscii.toString.splitOn " ").filter (· ≠ "") with
   | ["na", r] =>
@@ -177,6 +194,11 @@ def handle (line : String) : String :=
         | none => "bad-op"
       | _, _ => "bad-op"
     | _ => "bad-op"
+  | "dr" :: ws :: calls =>
+    match (if ws == "-" then some [] else (ws.splitOn ",").mapM parseHex), calls.mapM parseCall with
+    | some words, some cs =>
+      " ".intercalate ((cs.zip (runCalls (wrapperCall false) ⟨words, 0⟩ cs)).map fun (c, o) => callOut c o)
+    | _, _ => "bad-op"
   | "rt" :: t :: ops =>
     match t.splitOn "/" with
     | [ts, vs, is, ns] =>
